@@ -12,8 +12,14 @@ package vl1
 //     arrive in non-decreasing L1 order otherwise;
 //   - whatever is mined while no subscription is active is lost (never delivered);
 //   - the client is never told a finalised height >= the height of a removal notice it
-//     has not yet taken from its channel (from the client's side that would be
-//     indistinguishable from the node un-finalising a block).
+//     has not yet taken from its channel (a block cannot be reorged and its replacement
+//     finalised within the latency of a channel read) - unless the notice was already in
+//     the channel when the client verifiably stopped reading it for an unbounded time:
+//     it called WatchStateUpdate again after a subscription error, or a FinalisedHeight
+//     call failed and it sits in its retry loop. L1 may finalise during such an outage.
+//
+// VERIF_C17_UNCLAMPED=1 drops that causality rule altogether (debugging aid only; the
+// select race it exposes needs a physically impossible L1 node).
 
 import (
 	"context"
@@ -116,8 +122,8 @@ type instance struct {
 	// same, where the client verifiably sat in its finalised-height retry loop (a
 	// FinalisedHeight call failed while these items were already in its channel)
 	exposedFin int
-	view     map[int]*viewEntry
-	order    int
+	view       map[int]*viewEntry
+	order      int
 
 	lastF     uint64
 	haveF     bool
@@ -127,13 +133,13 @@ type instance struct {
 	filterCalls         int
 	failChainID         int
 
-	inCatchup     bool
-	cancelled     bool
-	latestRead    uint64
-	latestReadOK  bool
-	catchupFault  bool
-	catchupReorg  bool
-	catchupHeads  int
+	inCatchup      bool
+	cancelled      bool
+	latestRead     uint64
+	latestReadOK   bool
+	catchupFault   bool
+	catchupReorg   bool
+	catchupHeads   int
 	reachedGenesis bool
 
 	baseline *headRec // stored head when the instance started (nil: none)
@@ -430,12 +436,13 @@ func (p *provider) FinalisedHeight(context.Context) (uint64, error) {
 		w.finalFailures++
 		if in.watchOK >= 1 {
 			w.advanceView(in)
-			for i := max(in.consumed, in.exposed, in.exposedFin); i < len(in.queue); i++ {
+			// only what physically sits in the client's channel counts
+			for i := max(in.consumed, in.exposed, in.exposedFin); i < in.sent; i++ {
 				if in.queue[i].removed {
 					w.st("removal_notices_left_unread_across_a_stalled_finalised_query", 1)
 				}
 			}
-			in.exposedFin = len(in.queue)
+			in.exposedFin = max(in.exposedFin, in.sent)
 		}
 		return 0, errInjected
 	}
@@ -518,12 +525,12 @@ func (p *provider) WatchStateUpdate(_ context.Context, ch chan<- *l1.StateUpdate
 		in.inCatchup = false
 	} else if !in.subActive {
 		w.advanceView(in)
-		for i := in.consumed; i < len(in.queue); i++ {
-			if i >= in.exposed && in.queue[i].removed {
+		for i := max(in.consumed, in.exposed); i < in.sent; i++ {
+			if in.queue[i].removed {
 				w.st("removal_notices_left_unread_across_an_outage", 1)
 			}
 		}
-		in.exposed = len(in.queue)
+		in.exposed = max(in.exposed, in.sent)
 	}
 	if w.failWatch > 0 {
 		w.failWatch--
